@@ -40,19 +40,10 @@ RIPPLE_SEEN: dict[str, float] = {}   # measured worst relative under/overshoot p
 MAX_BW = 480.0              # MODBW_TO_TR * 1e3, the largest admissible mod_bandwidth
 
 
-def ripple(bw: float) -> float:
-    """Stated tolerance for the non-negativity / max-bound clauses: the transfer function is the
-    Gaussian sampled on [-1/2, 1/2) cycles/ns and cut there at the value exp(-0.25/fc^2); the
-    kernel therefore has lobes of a fraction of that value (measured: up to 0.057 of it for a
-    one-sample spike at 300-480 MHz, i.e. 2.7 % of the input maximum at 480 MHz; < 1e-9 below 100 MHz)."""
-    fc = bw * 1e-3 / math.sqrt(math.log(2))
-    return 1e-9 + 0.1 * math.exp(-0.25 / fc ** 2)
-
-
 UNCOVERED = [
     "non-negativity and max bound of the real kernel: proved only for a non-negative unit-sum kernel; the "
-    "code's kernel (inverse DFT of a sampled, truncated Gaussian) meets it up to a ripple — monitor with the "
-    "stated tolerance 1e-9 + 0.1*exp(-0.25/fc^2) of the input maximum",
+    "code's kernel (inverse DFT of a sampled, truncated Gaussian) has side lobes above about 90 MHz — monitored at "
+    "1e-9 of the input maximum; the excess within the exact lobe bound L*(max-min) of the documented kernel is the known finding F14.5",
     "residual below max(0.01 rad/us, 0.6 % of peak) beyond the accounted fall time: numeric inequality about the "
     "kernel per waveform — monitor only",
     "float FFT accuracy (the convolution theorem itself is proved: modulate_is_convolution; both readings are "
@@ -100,7 +91,7 @@ def decl(s: str) -> np.ndarray:
 # --------------------------------------------------------------------------
 # real objects
 # --------------------------------------------------------------------------
-def channel(bw, eom_bw=None, local=False):
+def channel(bw, eom_bw=None, local=False, buffer=None):
     from pulser.channels import Rydberg
     from pulser.channels.eom import RydbergBeam, RydbergEOM
 
@@ -108,9 +99,26 @@ def channel(bw, eom_bw=None, local=False):
     if eom_bw:
         kw["eom_config"] = RydbergEOM(mod_bandwidth=float(eom_bw), limiting_beam=RydbergBeam.RED,
                                       max_limiting_amp=100 * 2 * np.pi, intermediate_detuning=500 * 2 * np.pi,
-                                      controlled_beams=(RydbergBeam.BLUE,))
+                                      controlled_beams=(RydbergBeam.BLUE,), custom_buffer_time=buffer)
     mk = Rydberg.Local if local else Rydberg.Global
     return mk(None, None, mod_bandwidth=(float(bw) if bw else None), **kw)
+
+
+def prior_use(case, *wfs):
+    """History for the case: the same waveform objects have already been modulated on ANOTHER channel
+    (same channel bandwidth, other EOM bandwidth; also the other mode).  What a waveform caches must be
+    keyed by everything the result depends on."""
+    pe = case.get("prior_eom_bw")
+    if not pe:
+        return
+    other = channel(case["bw"], pe)
+    for w in wfs:
+        for eom in (True, False):
+            try:
+                w.modulation_buffers(other, eom=eom)
+                w.modulated_samples(other, eom=eom)
+            except Exception:  # noqa: BLE001 — a refused prior use is no history
+                pass
 
 
 class Skip(Exception):
@@ -231,15 +239,24 @@ def run_apply(drv, case):
         rhs = a * out + b * real_arr(Channel.apply_modulation(y, bw))
         if not allclose(lhs, rhs, 1e-9, max(sc, float(np.max(np.abs(y))) or 1.0) * (abs(a) + abs(b))):
             fails.append(Fail("linearity", f"|F(ax+by) - aF(x) - bF(y)| = {np.max(np.abs(lhs - rhs))}"))
-    # bounds up to the ripple
-    rp = ripple(bw)
+    # bounds up to the ripple: for a unit-sum kernel h with negative lobes of total weight L = sum(-h[h<0]) every
+    # output lies within [min x - L*span, max x + L*span], span = max x - min x (exact, by linearity); L is taken
+    # from the DOCUMENTED filter's response to a unit impulse of this length
+    imp = np.zeros(len(x)); imp[0] = 1.0
+    h = ref_apply(imp, bw)
+    lobes = float(np.sum(-h[h < 0]))
+    rp = lobes * float(np.max(x) - np.min(x)) / sc + 1e-9
     if np.min(x) >= 0:
         RIPPLE_SEEN[str(bw)] = max(RIPPLE_SEEN.get(str(bw), 0.0), float(-np.min(out)) / sc,
                                    float(np.max(out) - np.max(x)) / sc)
-    if np.min(x) >= 0 and np.min(out) < -rp * sc:
-        fails.append(Fail("non-negative", f"min output {np.min(out)} from non-negative input (bw {bw}, tol {rp * sc})"))
-    if np.max(out) > np.max(x) + rp * sc and np.max(x) >= 0:
-        fails.append(Fail("max-bound", f"max output {np.max(out)} > max input {np.max(x)} (bw {bw}, tol {rp * sc})"))
+    # (float tolerance 1e-9 of the input maximum; an excess within the ripple envelope of the truncated
+    # Gaussian — see `ripple` — is the known finding F14.5, anything beyond it is not)
+    if np.min(x) >= 0 and np.min(out) < -1e-9 * sc:
+        fails.append(Fail("non-negative", f"min output {np.min(out)} from non-negative input (bw {bw}, ripple "
+                          f"envelope {rp * sc})", dict(within_ripple_envelope=bool(np.min(out) >= -rp * sc))))
+    if np.max(out) > np.max(x) + 1e-9 * sc and np.max(x) >= 0:
+        fails.append(Fail("max-bound", f"max output {np.max(out)} > max input {np.max(x)} (bw {bw}, ripple "
+                          f"envelope {rp * sc})", dict(within_ripple_envelope=bool(np.max(out) <= np.max(x) + rp * sc))))
     div = None
     if drv is not None and len(x) <= MAX_N:
         for how in ("dft", "conv"):
@@ -357,6 +374,7 @@ def run_wfmod(drv, case):
         tr_buf = rise_of(case["eom_bw"]) if eom else rise_of(case["bw"])
         x = W16.arr(w)
         n_in = len(x)
+        prior_use(case, w)
         fbw = case["eom_bw"] if eom else case["bw"]
         got_buf = tuple(int(v) for v in w.modulation_buffers(ch, eom=eom))
         got_full = real_arr(w._modulated_samples(ch, eom=eom))
@@ -424,6 +442,7 @@ def run_pulse(drv, case):
             return [], None, False
         fbw = case["eom_bw"] if eom else case["bw"]
         tr = rise_of(fbw)
+        prior_use(case, amp, det)
         fall = int(p.fall_time(ch, in_eom_mode=eom))           # the observable under test
         fails = []
         if not (tr <= fall <= 2 * tr):
@@ -461,7 +480,7 @@ def build_seq(case):
     reg = pulser.Register.from_coordinates([(0, 0), (7, 0), (0, 7)], prefix="q")
     objs, ids = [], []
     for i, c in enumerate(case["channels"]):
-        objs.append(channel(c.get("bw"), c.get("eom_bw"), local=c.get("local", False)))
+        objs.append(channel(c.get("bw"), c.get("eom_bw"), local=c.get("local", False), buffer=c.get("buffer")))
         ids.append(f"c{i}")
     dev = dataclasses.replace(pulser.devices.MockDevice, channel_objects=tuple(objs), channel_ids=tuple(ids))
     seq = pulser.Sequence(reg, dev)
@@ -657,6 +676,8 @@ def gen_seq_case(rng):
         bw = rng.choice([None, 2.0, 4.0, 10.0, 40.0, 100.0, 480.0])
         eom = rng.choice([None, None, 20.0, 40.0, 100.0]) if bw else None
         chans.append(dict(bw=bw, eom_bw=eom, local=rng.random() < 0.3))
+        if eom and rng.random() < 0.4:
+            chans[-1]["buffer"] = rng.choice([1, 2, 3, 7, 40, 240])     # custom_buffer_time of the EOM
     ops = []
     for _ in range(rng.randrange(0, 7)):
         ch = rng.randrange(nch)
@@ -726,9 +747,12 @@ def gen_cases(rng, tier):
                     eom_bw = rng.choice([None, None, 3.0, 20.0, 40.0, 150.0])
                     eom = bool(eom_bw) and rng.random() < 0.6
                     amp = nonneg_spec(rng, cls, d)
-                    yield dict(k="wfmod", bw=bw, eom_bw=eom_bw, eom=eom, wf=W16.gen_spec(rng, cls, d))
+                    # a third of the EOM cases reuse waveforms already modulated on a channel with another EOM
+                    prior = ({"prior_eom_bw": rng.choice([b for b in (3.0, 20.0, 40.0, 150.0) if b != eom_bw])}
+                             if eom_bw and rng.random() < 0.35 else {})
+                    yield dict(k="wfmod", bw=bw, eom_bw=eom_bw, eom=eom, wf=W16.gen_spec(rng, cls, d), **prior)
                     yield dict(k="pulse", bw=bw, eom_bw=eom_bw, eom=eom, amp=amp,
-                               det=W16.gen_spec(rng, rng.choice(["const", "ramp", "custom", "blackman"]), d))
+                               det=W16.gen_spec(rng, rng.choice(["const", "ramp", "custom", "blackman"]), d), **prior)
     # asymmetric detunings of moderate size (start and end buffers differ; large values would hide the
     # difference behind the circular wrap-around) under amplitudes with a short tail of their own
     for bw, eom_bw in ((2.0, None), (4.0, None), (10.0, None), (40.0, None), (4.0, 40.0), (10.0, 100.0)):
